@@ -71,6 +71,9 @@ def cli_cases(res, drv, tier):
             cases.append(("dfu", n, sp))
     for c in (0, 1, 6, 10, 16):
         cases.append(("caches", c, str(c)))
+    # the cache count is a plain decimal integer option: the other decimal spellings it accepts denote the same count
+    for c, sp in ((8, "08"), (16, "016"), (7, "007"), (9, "09"), (12, "012"), (0, "00"), (4, "+4"), (10, "010")):
+        cases.append(("caches", c, sp))
     with tempfile.TemporaryDirectory(prefix="verif_c16cli_") as d:
         f = os.path.join(d, "env.suit")
         open(f, "wb").write(env)
